@@ -144,6 +144,16 @@ func (r *Run) dirArg(c Cmd) string {
 		d := filepath.Join(r.W.Proj, "a", "b", "c")
 		os.MkdirAll(d, 0o755)
 		return d
+	case "dot":
+		// the start directory itself, spelled relatively: discovery has to
+		// climb from wherever the command was started
+		return "."
+	case "relsub":
+		// a directory inside the project, spelled relative to the start directory
+		d := filepath.Join(r.W.Proj, "a", "b", "c")
+		os.MkdirAll(d, 0o755)
+		rel, _ := filepath.Rel(cwd, d)
+		return rel
 	}
 	return ""
 }
